@@ -22,11 +22,6 @@ package planner
 //@   opt modifies-everything
 //@   requires[stage] p != nil && p.#stage == 1
 //@   ensures[stage] p.#stage == 2
-//@ func (p *queryPlan) having
-//@   nobody
-//@   opt modifies-everything
-//@   requires[stage] p != nil && p.#stage == 3
-//@   ensures[stage] p.#stage == 4
 //@ func (p *queryPlan) Execute
 //@   opt modifies-everything
 //@   opt obligations pre:stage post
@@ -72,3 +67,28 @@ package planner
 //@   opt obligations assert
 //@   requires p != nil && p.stm != nil && p.tbl != nil && cls != nil && lo != nil
 //@   atcall simpleFetch assert[limit-push-down@C12] stmLimit != 0 ==> len(p.stm.pattern) == 1 && len(p.stm.groupBy) == 0 && len(p.stm.havingExpression) == 0 && len(p.stm.orderBy) == 0
+
+// ---- HAVING as the planner applies it (C13) -------------------------------------------------
+// holds(e, r): the HAVING expression evaluates to true on row r, without error.
+//@ props C13 C08
+//@ spec macro holds(e semantic.Evaluator, r table.Row) Bool = call("semantic.Evaluator.Evaluate#1", e, r) && call("semantic.Evaluator.Evaluate#0", e, r)
+//@ spec macro rowsOK(rows []table.Row) Bool = forall k int :: {rows[k]} 0 <= k && k < len(rows) ==> rows[k] != nil && wfRow(rows[k])
+// having: Table.Filter is inlined (its loop carries the invariants below): the table keeps exactly
+// the rows on which the expression holds; a row whose evaluation fails makes the whole stage fail.
+//@ func (p *queryPlan) having
+//@   opt terminates
+//@   opt inline Filter HasHavingClause HavingEvaluator
+//@   requires p != nil && p.stm != nil && p.tbl != nil && p.tbl.#lock_mu == 0 && rowsOK(p.tbl.Data)
+//@   requires[evaluator-built] len(p.stm.havingExpression) > 0 ==> p.stm.havingExpressionEvaluator != nil
+//@   requires[stage] p.#stage == 3
+//@   ghostset p.#stage = 4
+//@   modifies p.tbl.Data, p.tbl.#lock_mu, p.#stage
+//@   ensures[lock] p.tbl.#lock_mu == 0
+//@   ensures[no-having] len(p.stm.havingExpression) == 0 ==> result == nil && p.tbl.Data == old(p.tbl.Data)
+//@   ensures[kept-rows-are-old-rows-that-hold] result == nil && len(p.stm.havingExpression) > 0 ==> (forall j int :: {p.tbl.Data[j]} 0 <= j && j < len(p.tbl.Data) ==> holds(p.stm.havingExpressionEvaluator, p.tbl.Data[j]) && (exists i int :: {old(p.tbl.Data)[i]} 0 <= i && i < old(len(p.tbl.Data)) && old(p.tbl.Data)[i] == p.tbl.Data[j]))
+//@   ensures[rows-that-hold-are-kept] result == nil && len(p.stm.havingExpression) > 0 ==> (forall i int :: {old(p.tbl.Data)[i]} 0 <= i && i < old(len(p.tbl.Data)) && holds(p.stm.havingExpressionEvaluator, old(p.tbl.Data)[i]) ==> (exists j int :: {p.tbl.Data[j]} 0 <= j && j < len(p.tbl.Data) && p.tbl.Data[j] == old(p.tbl.Data)[i]))
+//@   ensures[evaluation-error-surfaces] len(p.stm.havingExpression) > 0 && (exists i int :: {old(p.tbl.Data)[i]} 0 <= i && i < old(len(p.tbl.Data)) && !call("semantic.Evaluator.Evaluate#1", p.stm.havingExpressionEvaluator, old(p.tbl.Data)[i])) ==> result != nil
+//@   loop Filter:0 invariant[frame] t == p.tbl && t.#lock_mu == 2 && t.Data == old(p.tbl.Data) && 0 <= $i && $i <= len(t.Data) && eval == p.stm.havingExpressionEvaluator && eval != nil && p.#stage == 3
+//@   loop Filter:0 invariant[kept] forall j int :: {newData[j]} 0 <= j && j < len(newData) ==> call("semantic.Evaluator.Evaluate#0", eval, newData[j]) && (exists i int :: {t.Data[i]} 0 <= i && i < $i && t.Data[i] == newData[j])
+//@   loop Filter:0 invariant[complete] forall i int :: {t.Data[i]} 0 <= i && i < $i && holds(eval, t.Data[i]) ==> (exists j int :: {newData[j]} 0 <= j && j < len(newData) && newData[j] == t.Data[i])
+//@   loop Filter:0 invariant[errors] (deref(addr(ok)) <==> (forall i int :: {t.Data[i]} 0 <= i && i < $i ==> call("semantic.Evaluator.Evaluate#1", eval, t.Data[i]))) && (!deref(addr(ok)) ==> deref(addr(eErr)) != nil)
